@@ -170,15 +170,30 @@ Definition persistent_waiter (c : case) (from to : Z) (o : ob) : bool :=
   | None => false
   end.
 
+Definition not_killed (c : case) (o : ob) : bool :=
+  match first_time (cevents c) 2 (pid_of (cevents c) (otid o)) with Some _ => false | None => true end.
+
+(** after time [from] the lock is obtainable for good (its holder is dead and the file stale,
+    at the latest, at [from] + ...): some thread acquires by [to], or else no contender that
+    was there gave up with an error of its own or is still waiting at [to] *)
+Definition recovered_by (c : case) (from to : Z) : bool :=
+  existsb (fun o => (oout o =? 0) && (from <? otime o) && (otime o <=? to)) (cobs c) ||
+  negb (existsb (fun o =>
+          match first_time (cevents c) 0 (otid o) with
+          | Some st =>
+              (st <=? from + 2000000000) && not_killed c o &&
+              ((((oout o =? 2) || (oout o =? 3)) && (from <=? otime o)) ||
+               (persistent_waiter c from to o && (to <? chorizon c)))
+          | None => false
+          end) (cobs c)).
+
 Definition recovers_ok (c : case) : bool :=
   forallb (fun e =>
     if ekind e =? 2 then
       let tk := etime e in
       (* was a thread of the killed process holding at the kill? *)
       let held := existsb (fun h => let '(t, a, e1) := h in (pid_of (cevents c) t =? ea e) && (a <=? tk) && (tk <=? e1)) (holds_of c) in
-      let waiting := existsb (persistent_waiter c tk (tk + recovery_bound)) (cobs c) in
-      negb (held && waiting && (tk + recovery_bound <? chorizon c)) ||
-      existsb (fun o => (oout o =? 0) && (tk <? otime o) && (otime o <=? tk + recovery_bound)) (cobs c)
+      negb held || recovered_by c tk (tk + recovery_bound)
     else true) (cevents c).
 
 (** a pre-made lock file has no live owner (its holder is dead): it becomes obtainable once it
@@ -198,25 +213,10 @@ Definition pre_free_at (c : case) : option Z :=
   | Some _ => Some (Z.max 0 (cmtime c + stale_span))
   end.
 Definition pre_bound : Z := file_lock_poll_interval + lock_empty_retries * lock_empty_sleep + slack.
-Definition not_killed (c : case) (o : ob) : bool :=
-  match first_time (cevents c) 2 (pid_of (cevents c) (otid o)) with Some _ => false | None => true end.
 Definition prefile_recovers_ok (c : case) : bool :=
   match pre_free_at c with
   | None => true
-  | Some tf =>
-      let to := tf + pre_bound in
-      (* somebody obtained the lock in time *)
-      existsb (fun o => (oout o =? 0) && (otime o <=? to)) (cobs c) ||
-      negb (existsb (fun o =>
-              match first_time (cevents c) 0 (otid o) with
-              | Some st =>
-                  (st <=? tf + 2000000000) && not_killed c o &&
-                  ((* Lock gave up with an error of its own although the file was obtainable *)
-                   (((oout o =? 2) || (oout o =? 3)) && (tf <=? otime o)) ||
-                   (* or is still waiting (or only its context ended) long after *)
-                   (persistent_waiter c tf to o && (to <? chorizon c)))
-              | None => false
-              end) (cobs c))
+  | Some tf => recovered_by c (tf - 1) (tf + pre_bound)
   end.
 
 Definition cancel_ok (c : case) : bool :=
